@@ -66,3 +66,29 @@ End CanonKeys.
 (* the comparison of the correspondence check: link names, symbols and order-hint keys up to renaming *)
 Definition canon_full {L Sy} (leqb : L -> L -> bool) (seqb : Sy -> Sy -> bool) (m : eregion L Sy) : eregion nat nat :=
   canon_keys (canon leqb seqb m).
+
+(* ---- keys that no hint mentions.  The property asks for a key on the two nodes of every order hint; whether
+   a node that no hint of its region mentions carries a key as well (a node with order edges to the region
+   boundary only, every node, ...) is not prescribed.  Before the comparison every key on a child of a region
+   that none of the hints of that region mentions is dropped, on both trees. *)
+Section PruneKeys.
+  Context {L Sy : Type}.
+  Definition hint_keys (h : list (Z * Z)) : list Z := flat_map (fun ab => [fst ab; snd ab]) h.
+  Definition keep_used (used keys : list Z) : list Z := filter (fun k => mem Z.eqb k used) keys.
+  Fixpoint pk_node (used : list Z) (e : enode L Sy) : enode L Sy :=
+    match e with
+    | ENode op sg i o regs keys meta =>
+        ENode op sg i o
+              (map (fun r => match r with
+                             | ERegion k s t ch h => ERegion k s t (map (pk_node (hint_keys h)) ch) h
+                             end) regs)
+              (keep_used used keys) meta
+    end.
+  Definition prune_keys (r : eregion L Sy) : eregion L Sy :=
+    match r with ERegion k s t ch h => ERegion k s t (map (pk_node (hint_keys h)) ch) h end.
+End PruneKeys.
+
+(* the comparison of the correspondence check since the correction of the false alarms on harmless changes:
+   link names, symbols and the keys the hints use, up to renaming *)
+Definition canon_cmp {L Sy} (leqb : L -> L -> bool) (seqb : Sy -> Sy -> bool) (m : eregion L Sy) : eregion nat nat :=
+  canon_keys (prune_keys (canon leqb seqb m)).
